@@ -39,7 +39,13 @@ func init() {
 						ended = true
 					}
 				default:
-					toks = append(toks, fmt.Sprintf("W:1.%d", []int{1, 1000, 100000}[r.intn(3)]))
+					if r.chance(1, 3) {
+						// stream-level credit for a stream the client is not sending on (finished long ago / never opened): legal,
+						// and it must not turn into connection-level credit
+						toks = append(toks, fmt.Sprintf("W:%d.%d", []int{3, 5, 99}[r.intn(3)], []int{1, 1000, 100000}[r.intn(3)]))
+					} else {
+						toks = append(toks, fmt.Sprintf("W:1.%d", []int{1, 1000, 100000}[r.intn(3)]))
+					}
 				}
 			}
 			if !ended {
